@@ -37,7 +37,7 @@
 From Coq Require Import List NArith.
 From ApiFu Require Import Base.Sexp Vld.Ast Vld.Inspect Vld.TypeInfoModel Vld.TypeInfoPure Vld.ValidatorModel Vld.ValidSpec
      Vld.Hyps Vld.ProofsCommon Vld.ProofsDirectives Vld.ProofsArguments Vld.ProofsFragDecl Vld.ProofsValues
-     Vld.ProofsCycles Vld.ProofsVarsOrder Vld.ProofsOrder Vld.ProofsOperations Vld.ProofsTotal Vld.Enumerate Vld.ProofsFields Vld.ProofsMemo Vld.ValidatorProofs Vld.Witness.
+     Vld.ProofsCycles Vld.ProofsVarsOrder Vld.ProofsOrder Vld.ProofsOperations Vld.ProofsTotal Vld.Enumerate Vld.ProofsFields Vld.ProofsMemo Vld.ValidatorProofs Vld.ProofsSpreads Vld.Witness.
 Import ListNotations.
 
 (** ** determinism: acceptance is a function of schema, features and document alone *)
@@ -207,6 +207,20 @@ Theorem C04_fields_pass_errors : forall S F qo D,
                               (ssels_ss S F (model_def_scope S F d) (def_sub d))) D.
 Proof. exact fields_pass_errors. Qed.
 
+(** 5.5.2.1 (spread targets are defined) holds of every accepted document; the errors of the visitor
+    of validateFragmentSpreads, exactly, one batch per spread / typed inline fragment, computed from
+    the parent type TypeInfo recorded ([sp_ev1]) — the basis for 5.5.2.3 *)
+Theorem C04_accepted_spread_targets_defined : forall pi S F D,
+  order_ok pi -> validate_model repaired pi S F D = Done [] -> valid_5_5_2_1 D = true.
+Proof. exact accepted_spread_targets_defined. Qed.
+Theorem C04_spreads_pass_errors : forall pi S F D st,
+  r_stack st = [] ->
+  r_errs (inspect (spreads_enter repaired pi S F (pti_doc (q_unwrap_obj repaired) S F D)) pop (tree_doc (pti_doc (q_unwrap_obj repaired) S F D)) st) =
+  r_errs st ++
+  flat_map (fun d => flat_map (fun o => sp_ev1 pi S F (pti_doc (q_unwrap_obj repaired) S F D) (fst o) (pti_sel (q_unwrap_obj repaired) S F (fst o) (snd o)))
+                              (ssels_ss S F (model_def_scope S F d) (def_sub d))) D.
+Proof. exact spreads_pass_errors. Qed.
+
 (** a violation of one of these sections -> rejected *)
 Theorem C04_violation_rejected_partial : forall pi S F D,
   order_ok pi ->
@@ -260,6 +274,8 @@ Print Assumptions C04_validate_verdict_partial.
 Print Assumptions C04_accepted_fields_hold.
 Print Assumptions C04_accepted_arguments_hold.
 Print Assumptions C04_fields_pass_errors.
+Print Assumptions C04_accepted_spread_targets_defined.
+Print Assumptions C04_spreads_pass_errors.
 Print Assumptions C04_violation_rejected_partial.
 Print Assumptions C04_refuted_before_fix_descend.
 Print Assumptions C04_refuted_before_fix_revisit.
